@@ -8,6 +8,7 @@ import (
 	"pgregory.net/rapid"
 
 	"verif/internal/corpus"
+	"verif/internal/dcegen"
 	"verif/internal/drv"
 	"verif/internal/progen"
 )
@@ -29,6 +30,20 @@ func TestCheck(t *testing.T) {
 	for _, p := range corpus.All() {
 		diff(p.Name, p.Files, [][]string{{}}, nil)
 	}
+	nUnits := 40
+	if drv.Thorough() {
+		nUnits = 1500
+	}
+	units := make([]dcegen.Prog, nUnits)
+	for i := range units {
+		units[i] = rapid.Custom(dcegen.Gen).Example(drv.Seed()*9001 + i)
+	}
+	drv.Parallel(nUnits, func(i int) {
+		for _, k := range units[i].Kinds {
+			ev.Count("unit:"+k, 1)
+		}
+		diff(fmt.Sprintf("units%d %v", i, units[i].Kinds), units[i].Files, [][]string{{}}, nil)
+	})
 	type bundle struct {
 		scs   []progen.Scenario
 		files map[string]string
